@@ -466,7 +466,9 @@ pub const ID_FORMS: &[(&str, IdF)] = &[
     ("IDENTITY==E", |a| Element::IDENTITY == a),
 ];
 
-/// operators that RETURN an affine point, observed directly (no conversion through Element in between)
+/// operators that RETURN an affine point, observed directly (no conversion through Element in between);
+/// the first ten are binary (+ / -), the rest use only their first operand: "conv" returns the same element,
+/// "neg" its negative, "zero" the identity
 #[cfg(feature = "ark")]
 pub const APROD_FORMS: &[(&str, &str, fn(AffinePoint, AffinePoint) -> AffinePoint)] = &[
     ("add", "&A+&A", |a, b| &a + &b),
@@ -489,6 +491,22 @@ pub const APROD_FORMS: &[(&str, &str, fn(AffinePoint, AffinePoint) -> AffinePoin
     }),
     ("sub", "A-=A", |mut a, b| {
         a -= b;
+        a
+    }),
+    ("conv", "el(A).into_affine()", |a, _| el(a).into_affine()),
+    ("conv", "A::from(&el(A))", |a, _| AffinePoint::from(&el(a))),
+    ("conv", "normalize_batch([E,E])[1]", |a, _| Element::normalize_batch(&[Element::GENERATOR, el(a)])[1]),
+    ("conv", "(&A + &A::zero())", |a, _| &a + &<AffinePoint as AffineRepr>::zero()),
+    ("conv", "&A*&Fr::ONE", |a, _| &a * &Fr::from(1u64)),
+    ("conv", "Fr::ONE*&A", |a, _| Fr::from(1u64) * &a),
+    ("neg", "-A", |a, _| -a),
+    ("neg", "&A*&(-Fr::ONE)", |a, _| &a * &(-Fr::from(1u64))),
+    ("neg", "(&A::zero() - &A)", |a, _| &<AffinePoint as AffineRepr>::zero() - &a),
+    ("zero", "&A*&Fr::ZERO", |a, _| &a * &Fr::from(0u64)),
+    ("zero", "Fr::ZERO*A", |a, _| Fr::from(0u64) * a),
+    ("zero", "(&A - &A)", |a, _| &a - &a),
+    ("zero", "A*=Fr::ZERO", |mut a, _| {
+        a *= Fr::from(0u64);
         a
     }),
 ];
@@ -1217,6 +1235,11 @@ pub fn record(suite: &str, n: usize, seed: u64, arg: &str, out: &mut dyn Write) 
                             m.aobs(f, a, b);
                         }
                     }
+                    // unary producers: conversions, negations, multiples by zero
+                    #[cfg(feature = "ark")]
+                    for f in 10..APROD_FORMS.len() {
+                        m.aobs(f, a, a);
+                    }
                 }
             }
         }
@@ -1272,6 +1295,9 @@ pub fn record(suite: &str, n: usize, seed: u64, arg: &str, out: &mut dyn Write) 
                     if n > 0 && cnt % n != 0 {
                         continue;
                     }
+                    if cnt % 16 == 15 {
+                        load_alphabet(&mut m, &mut r);
+                    }
                     let a = 2 + (cnt % 10);
                     let save = m.regs;
                     m.mul(f, k, a, 0);
@@ -1285,6 +1311,9 @@ pub fn record(suite: &str, n: usize, seed: u64, arg: &str, out: &mut dyn Write) 
                     cnt += 1;
                     if n > 0 && cnt % n != 0 {
                         continue;
+                    }
+                    if cnt % 16 == 15 {
+                        load_alphabet(&mut m, &mut r);
                     }
                     let a = 2 + (cnt % 10);
                     let save = m.regs;
@@ -1394,6 +1423,29 @@ pub fn record(suite: &str, n: usize, seed: u64, arg: &str, out: &mut dyn Write) 
                 m.ell(x, i % NREG);
                 m.ell(&-*x, (i + 1) % NREG);
                 m.eq(0, i % NREG, (i + 1) % NREG);
+            }
+            // the two-input hash on every ordered pair of a small structured set (0, +-1, zeta, 1/zeta, small integers,
+            // one random value and its negative and 1/(zeta x), whose image is the negative of x's)
+            {
+                let x = rand_fq(&mut r);
+                let mut st: Vec<Fq> = vec![Fq::ZERO, Fq::ONE, -Fq::ONE, decaf377::ZETA, Fq::from(2u64), -Fq::from(2u64), Fq::from(3u64), x, -x];
+                if let Some(z) = decaf377::ZETA.inverse() {
+                    st.push(z);
+                }
+                if let Some(z) = (decaf377::ZETA * x).inverse() {
+                    st.push(z);
+                }
+                let mut cnt = 0usize;
+                for a in st.iter() {
+                    for b in st.iter() {
+                        cnt += 1;
+                        if cnt % 30 == 29 {
+                            m.reset();
+                        }
+                        m.h2c(a, b, cnt % NREG);
+                    }
+                }
+                m.reset();
             }
             for i in 0..(n / 4 + 4) {
                 let a = inputs[below(&mut r, inputs.len())];
@@ -1589,6 +1641,9 @@ pub fn record(suite: &str, n: usize, seed: u64, arg: &str, out: &mut dyn Write) 
             m.reset();
             let text = std::fs::read_to_string(arg).expect("input file");
             for (i, line) in text.lines().enumerate() {
+                if i % 40 == 39 {
+                    m.reset();
+                }
                 let v: Value = serde_json::from_str(line).expect("json");
                 let b: Vec<u8> = serde_json::from_value(v["b"].clone()).expect("bytes");
                 let all = v["entries"].as_str() == Some("all");
